@@ -23,7 +23,8 @@ BUILTIN_NAMES = {
 BUILTIN_EXC = {
     "Exception", "BaseException", "ValueError", "TypeError", "KeyError", "IndexError", "AttributeError",
     "NotImplementedError", "RuntimeError", "LookupError", "ImportError", "StopIteration", "AssertionError",
-    "ArithmeticError", "ZeroDivisionError", "OverflowError", "NameError", "OSError", "UnicodeError",
+    "ArithmeticError", "ZeroDivisionError", "OverflowError", "NameError", "OSError", "UnicodeError", "RecursionError",
+    "MemoryError", "UnicodeDecodeError", "UnicodeEncodeError", "FloatingPointError", "EOFError", "TimeoutError",
 }
 
 
